@@ -30,7 +30,7 @@ BUDGET = {'quick': (30000, 55), 'thorough': (2_000_000, 600)}
 COMPONENTS = dict(common.COMPONENTS, real=common.COMPONENTS['real'] + [
     'plumpy.workchains (WorkChain._do_step, to_context, Waiting with awaitables, steppers)', 'Process.launch (children)'])
 ASSUMPTIONS = ['bare futures are completed with a value or an exception, not cancelled (outside the stated mix)', 'FIFO ready queue']
-EXPECTED_COUNTERS = ['items:1', 'items:2', 'items:3', 'items:4', 'probe:child_killed', 'probe:future_failed', 'probe:child_raised',
+EXPECTED_COUNTERS = ['probe:all_items_already_complete', 'probe:child_launched_in_earlier_step', 'items:1', 'items:2', 'items:3', 'items:4', 'probe:child_killed', 'probe:future_failed', 'probe:child_raised',
                      'probe:reassigned_key', 'probe:completed_before_waiting', 'via:ret', 'via:call', 'via:both', 'end:finished',
                      'end:excepted']
 _sys_cache = {}
@@ -72,6 +72,11 @@ def systematic(tier):
                         schedule = [{'act': 'complete', 'fut': fut, 'how': outcomes[fut], 'v': f'v{fut}', 'at': pos + spread * j}
                                     for j, fut in enumerate(order)]
                         cases.append({'program': program, 'schedule': schedule, 'opts': {}, 'origin': f'systematic:{n}'})
+    for n in (1, 2):
+        for outcomes in itertools.product(['value', 'exc'], repeat=n):
+            for via in ('ret', 'call'):
+                program = make_program([(f'k{i}', {'fut': i, 'pre': outcomes[i], 'v': f'pre{i}'}) for i in range(n)], via)
+                cases.append({'program': program, 'schedule': [], 'opts': {}, 'via': via, 'origin': 'systematic:pre'})
     _sys_cache[tier] = cases
     return cases
 
@@ -89,16 +94,34 @@ def random_case(rng, tier):
         else:
             items_a.append((f'k{index}', {'fut': fut_id}))
             fut_id += 1
+    for index, (key, aref) in enumerate(items_a):
+        if 'fut' in aref and rng.random() < 0.2:
+            # already complete when the step hands it over
+            aref['pre'] = 'value' if rng.random() < 0.7 else 'exc'
+            aref['v'] = f'pre{aref["fut"]}'
     items_b = []
     if rng.random() < 0.35:
         key = rng.choice(items_a)[0] if rng.random() < 0.7 else 'extra'
-        items_b.append((key, {'fut': fut_id}))
+        aref = {'fut': fut_id}
+        if rng.random() < 0.3:
+            aref.update(pre='value' if rng.random() < 0.7 else 'exc', v=f'pre{fut_id}')
+        items_b.append((key, aref))
         fut_id += 1
+    early = []
+    if rng.random() < 0.3:
+        # children launched (not awaited) in A and handed to the context only in B, by when they may have finished
+        for _ in range(rng.randint(1, 2)):
+            children.append(child_program(rng.choice([0, 0.5, 1]), 'ok' if rng.random() < 0.7 else 'raise', f'c{len(children)}'))
+            early.append(len(children) - 1)
+            items_b.append((f'e{len(children) - 1}', {'child_ref': len(children) - 1}))
     program = make_program(items_a, via, items_b)
+    for child_index in early:
+        program['steps']['A']['effects'].insert(0, {'e': 'launchonly', 'child': child_index})
     program['children'] = children
     ticks, notify, _ = common.dry_run(program)
     schedule = []
-    order = list(range(fut_id))
+    pre_resolved = {aref['fut'] for _, aref in items_a + items_b if 'fut' in aref and aref.get('pre')}
+    order = [f for f in range(fut_id) if f not in pre_resolved]
     rng.shuffle(order)
     position = rng.randint(0, ticks + 1)
     for fut in order:
@@ -181,11 +204,17 @@ def _oracle(engine, result, case, drive):
     result.counters[f'via:{case.get("via", "ret")}'] += 1
     if len({k for k, _ in barriers['A']} & {k for k, _ in barriers['B']}):
         result.counters['probe:reassigned_key'] += 1
+    for name in order:
+        items = barriers[name]
+        if items and all(('fut' in aref and aref.get('pre')) for _, aref in items):
+            result.counters['probe:all_items_already_complete'] += 1
+        if any('child_ref' in aref for _, aref in items):
+            result.counters['probe:child_launched_in_earlier_step'] += 1
 
     def awaitable(aref):
         if 'fut' in aref:
             return world.futures.get(aref['fut'])
-        children = world.child_by_index.get(aref['child']) or []
+        children = world.child_by_index.get(aref.get('child', aref.get('child_ref'))) or []
         return children[-1].future() if children else None
 
     def failed(future):
@@ -226,7 +255,15 @@ def _oracle(engine, result, case, drive):
             previous = order[index - 1]
             for key, aref in barriers[previous]:
                 assigned[key] = aref
-            pending = entries[name][7]
+            awaited_labels = set()
+            for prior in order[:index]:
+                for _, aref in barriers[prior]:
+                    if 'fut' in aref:
+                        awaited_labels.add(f'fut{aref["fut"]}')
+                    else:
+                        kids = world.child_by_index.get(aref.get('child', aref.get('child_ref'))) or []
+                        awaited_labels.update(programs.label(k) for k in kids)
+            pending = [p for p in entries[name][7] if p in awaited_labels]
             if pending:
                 result.violate('barrier_passed_early', name, f'step {name} started while {pending} were not done')
             view = entries[name][3]
